@@ -2,6 +2,7 @@
 package props
 
 import (
+	"runtime"
 	"strings"
 	"bufio"
 	"encoding/json"
@@ -80,9 +81,22 @@ func TestWorker(t *testing.T) {
 		raceLog = fmt.Sprintf("%s.%d", pfx, os.Getpid())
 	}
 	t0 := time.Now()
+	// Goroutines left behind by earlier runs (blocked for good in bubbles that have ended: a
+	// handler waiting on a server loop that is gone, say) keep their memory. A worker that
+	// has accumulated too much of that stops and tells the driver where to resume in a
+	// fresh process.
+	maxHeap := uint64(envInt("VERIF_MAX_HEAP_MB", 1536)) << 20
 	for i := 0; i < count; i++ {
 		if time.Since(t0) > budget {
 			break
+		}
+		if i > 0 && i%512 == 0 {
+			var ms runtime.MemStats
+			runtime.ReadMemStats(&ms)
+			if ms.HeapInuse+ms.StackInuse > maxHeap || runtime.NumGoroutine() > 60000 {
+				sum.ResumeAt = i
+				break
+			}
 		}
 		seed := start + uint64(i)*stride
 		fmt.Fprintf(w, "BEGIN %d\n", seed)
